@@ -27,6 +27,9 @@ Streams
              names, corrupted, usually read before the original), and a *laid-out* source
              (doc comments of all four kinds before / after / beside statements, continuation
              lines, `;`, blank and comment lines) cut after every kind of physical line.
+             Reader errors (all four kinds of line the reader refuses) sit in the additional file itself or in
+             a file it INCLUDEs (one or two levels, same directory or below, extension FORD does not scan): it is
+             the including file that is rejected and has to be named (O3), whatever file the exception names.
   reader   : every laid-out file: real `FortranReader` (2 s watchdog) == reader model `readAll`
              (C02) on the same lines, and the statements among the items are the expected
              prefix of the statement sequence.
@@ -41,7 +44,8 @@ Streams
              and INCLUDEs that quote Fortran-like token lines; run as a user runs FORD (the real
              `ford.console.warn`, progress bar on); O1-O3 on the text `warn` printed; rich's `escape` / `render`,
              `warn` and the progress bar == the model lean/FordModel/Markup.lean (tables `warnSpec`,
-             `progressSpec`, `rejectionMsg`).
+             `progressSpec`, `rejectionRules`; the handler's message == the model's `rejectionText` for every rejected
+             file of the projects stream).
   preprocessed : same module - additional files with a preprocessed extension (default settings: pcpp) and a
              broken directive from a grammar of malformed preprocessor input; O1-O3.
   e2e      : a few complete runs (ford.main): the generated site with a rejected bad file is
@@ -59,6 +63,8 @@ import re
 import signal
 import time
 from pathlib import Path
+
+from translate.c20diag import err_text as c20diag_err_text
 
 from . import common
 from .common import Driver, Report, lean_prove
@@ -856,7 +862,8 @@ class Real:
         role = {}
         for k_, v_ in disk.items():
             role[v_] = k_
-            role[Path(v_).name] = k_
+            if k_ != v_:            # (an INCLUDEd file keeps its name)
+                role[Path(v_).name] = k_
         for name, body in files:
             pth = d / disk[name]
             pth.parent.mkdir(parents=True, exist_ok=True)
@@ -956,6 +963,8 @@ class Real:
         obs["warn_rendered"] = list(rendered)
         warns = [unrole(w) for w in warns]
         excs = {role.get(k, k): v for k, v in excs.items()}
+        # the text of each exception as the handler's message shows it (`err` of the model's `rejectionText`)
+        obs["exc_text"] = {k: c20diag_err_text(v) for k, v in excs.items()}
         obs["read_order"] = [role.get(n_, n_) for n_ in read_order]
         obs["reserved"] = [k for k, _ in reserved]
         obs["reserved_owner"] = [f"{k}@{role.get(o, o)}" for k, o in reserved]
@@ -1179,6 +1188,18 @@ def src_text(src, rng, carrier="free"):
     return text_of(src["stmts"], rng)
 
 
+def with_aux(files, srcs, disk):
+    """the files of a run plus the files its sources INCLUDE (`aux` of a generated source: names relative to
+    the source directory, extensions FORD does not scan); `disk` is extended by them"""
+    out = list(files)
+    for _, src in srcs:
+        for an, at in (src.get("aux") or []) if isinstance(src, dict) else []:
+            if an not in disk:
+                disk[an] = an
+                out.append((an, at))
+    return out
+
+
 def run(tier: str, seed: int, replay: str | None = None) -> int:
     from translate import c20 as tr
     from . import c20rx
@@ -1250,10 +1271,33 @@ def run(tier: str, seed: int, replay: str | None = None) -> int:
             bads.append({"form": "undecodable", "how": "undecodable", "bytes": b"\xff\xfe\x00m\x00o\x00d\x00"})
             # (the last one: a continuation mark at the start of a line of Fortran-like tokens - brackets,
             # array constructors old and new, sections, component accesses: the exception text quotes it)
-            for amp in ("& x = 1", "&& foo", "x = 1 !> doc after code", "& " + c20diag.offending_line(rng)):
+            reader_lines = ["& x = 1", "&& foo", "x = 1 !> doc after code", "integer :: y !| doc beside code",
+                            "x = 2 !* doc beside code", "& " + c20diag.offending_line(rng)]
+            for amp in reader_lines:
                 k = rng.randint(0, len(base))
                 bads.append({"form": "reader", "how": "reader-error",
                              "text": text_of(base[:k]) + amp + "\n" + text_of(base[k:])})
+            # ... and the same lines in a file the additional file INCLUDEs (directly, or through a second include
+            # file; in the same directory or below it; under an extension FORD does not scan): it is the
+            # *including* source file that cannot be parsed and is rejected
+            for n_inc in range(4 if quick else 8):
+                amp = rng.choice(reader_lines)
+                k = rng.randint(0, len(base))
+                ext = rng.choice([".inc", ".inc", ".h", ".fi", ".incl"])
+                leaf = rng.choice(["", "inc/"]) + f"b{gi}_leaf{n_inc}{ext}"
+                leaf_text = "".join(rng.choice(["integer :: inc_a\n", "real :: inc_b(3)\n", "! a comment\n", "\n"])
+                                    for _ in range(rng.randint(0, 3))) + "  " + amp + "\n" + rng.choice(["", "integer :: inc_c\n"])
+                aux = [(leaf, leaf_text)]
+                top = leaf
+                if rng.random() < 0.4:
+                    top = f"b{gi}_mid{n_inc}{rng.choice(['.inc', '.h'])}"
+                    q = rng.choice(['"', "'"])
+                    aux.append((top, f"integer :: mid_a\ninclude {q}{leaf}{q}\n"))
+                q = rng.choice(['"', "'"])
+                inc_stmt = rng.choice(["include ", "INCLUDE ", "  include "]) + q + top + q
+                bads.append({"form": "reader", "how": f"reader-error-in-include:{len(aux)}",
+                             "text": text_of(base[:k]) + inc_stmt + "\n" + text_of(base[k:]),
+                             "reader_text": leaf_text, "aux": aux})
             bads.append(make_bad(rng, "valid-extra", base))
             # whole extra units appended / prepended (a second main program makes the file invalid)
             gq = Gen(rng, f"b{gi}q")
@@ -1341,7 +1385,7 @@ def run(tier: str, seed: int, replay: str | None = None) -> int:
         resp = drv.batch(reqs)
         # inputs of kind R are justified by the reader model of C02: it must raise on these lines
         rcases = [c for c in cases if c["bad"]["form"] == "reader"]
-        rresp = drv.batch([["read", "!", ">", "*", "|"] + c["bad"]["text"].splitlines() for c in rcases])
+        rresp = drv.batch([["read", "!", ">", "*", "|"] + c["bad"].get("reader_text", c["bad"]["text"]).splitlines() for c in rcases])
         for c, r in zip(rcases, rresp):
             if r[0] != "err":
                 n_corr_bad += 1
@@ -1415,8 +1459,9 @@ def run(tier: str, seed: int, replay: str | None = None) -> int:
             lrng = random.Random(seed * 31 + ci)
             files = [(name, texts[name] if name in texts else
                       src_text(src, lrng, c["carrier"] if name == "bad.f90" else "free")) for name, src in c["files"]]
-            obs = real.run(files, c["dbg"], c["force"],
-                           disk=carrier_disk([n_ for n_, _ in files], {"bad.f90": c["carrier"]}))
+            disk_ = carrier_disk([n_ for n_, _ in files], {"bad.f90": c["carrier"]})
+            files = with_aux(files, c["files"], disk_)
+            obs = real.run(files, c["dbg"], c["force"], disk=disk_)
             c["real_skipped"] = (not obs["hang"] and obs["escaped"] is None and "bad.f90" not in obs.get("files", ["bad.f90"]))
             c["obs"], c["run_files"] = obs, files
             if real.hangs >= MAX_PROJECT_HANGS:
@@ -1445,6 +1490,19 @@ def run(tier: str, seed: int, replay: str | None = None) -> int:
         for c, r in zip(cases, drv.batch(preqs)):
             c["m_proj"] = r
         rep.coverage["cases_read_in_another_order_than_intended"] = n_misplaced
+        # the handler's message for every file whose constructor raised: model `rejectionText` (table
+        # `Gen.rejectionRules`) on the path the loop computes and the text of the exception
+        mreqs, mkeys = [], []
+        for ci_, c in enumerate(cases):
+            o_ = c["obs"]
+            if c["dbg"] and not o_["hang"] and o_["escaped"] is None:
+                for n_, t_ in o_["exc_text"].items():
+                    if n_ in o_["disk"]:
+                        mreqs.append(["c20.rejectionmsg", o_["disk"][n_], t_])
+                        mkeys.append((ci_, n_))
+        for (ci_, n_), r in zip(mkeys, drv.batch(mreqs)):
+            cases[ci_].setdefault("m_msg", {})[n_] = r[1] if r[0] == "ok" and len(r) > 1 else None
+        n_msg_checks = len(mkeys)
         # ------------------------------------------------------------ compare
         for ci, c in enumerate(cases):
             texts, base_obs = baselines[(c["gi"], c["dbg"], c["force"])]
@@ -1515,6 +1573,11 @@ def run(tier: str, seed: int, replay: str | None = None) -> int:
                         gw = sorted(n_ for n_ in obs["excs"])
                         if tie is None and mw != gw:
                             tie = f"warned files differ: implementation {gw}, model {mw}"
+                        # ... and what the handler said about each of them
+                        for n_, want_msg in c.get("m_msg", {}).items():
+                            if tie is None and want_msg not in obs["warn_raw"]:
+                                tie = (f"{n_}: the handler's message for the exception text {obs['exc_text'][n_]!r} is not the "
+                                       f"model's (Gen.rejectionRules) {want_msg!r}: warn() was given {obs['warn_raw']}")
                         # identifiers requested from the process-wide NameSelector while Project() ran
                         # (a reader error hides the statements before it from the model: not compared)
                         if tie is None and all(src["form"] != "reader" for _, src in c["files"]):
@@ -1642,6 +1705,7 @@ def run(tier: str, seed: int, replay: str | None = None) -> int:
         stale_copy_cases_read_before_the_original=n_stale_before,
         identifier_comparisons=n_ident_checks,
         name_table_comparisons=n_names_checks,
+        handler_message_comparisons=n_msg_checks,
         e2e_runs=n_e2e_done,
         patterns_stream=rx_cov,
         diagnostics_stream=diag_cov,
@@ -1681,7 +1745,8 @@ def e2e_stream(rep, rng, cases, baselines, n, seed):
     ford = common.import_ford()
     import ford.fortran_project as fp
 
-    picked = [c for c in cases if c["dbg"] and c.get("real_skipped") and not c["extra"] and c.get("carrier", "free") == "free"]
+    picked = [c for c in cases if c["dbg"] and c.get("real_skipped") and not c["extra"] and c.get("carrier", "free") == "free"
+              and not c["bad"].get("aux")]
     rng.shuffle(picked)
     # a share of the runs for stale copies read before their original and for laid-out sources
     stale = [c for c in picked if "stale_of" in c["bad"] and c["k"] <= c["bad"]["stale_of"]]
